@@ -33,10 +33,10 @@ def _worker(args):
     interrupts = PROPS[prop].get('interrupts', {})
     from pyvc.run import verify_functions
     try:
-        scope = {} if tier == 'quick' else {'Task': 4, 'Inst': 4, 'Type': 3, 'Fut': 4}
+        scope = {} if tier == 'quick' else {'Task': 4, 'Inst': 4, 'Type': 3, 'Fut': 4, 'Fid': 4}
         scope = dict(scope, **PROPS[prop].get('scope', {}))
         r = verify_functions([fkey], prop=prop, repo=repo, scope=scope, interrupts=interrupts,
-                             timeout_ms=30000 if tier == 'quick' else 300000)
+                             timeout_ms=30000 if tier == 'quick' else 300000, cross_check=(tier != 'quick'))
         return fkey, r, None
     except Exception:
         return fkey, None, traceback.format_exc()
@@ -87,6 +87,7 @@ def main(argv=None):
         results = pool.map(_worker, jobs, chunksize=1)
     obligations, functions, unsupported, crashes = {}, [], {}, {}
     lemmas, trusted_uses, solver_time, queries, houdini = {}, {}, 0.0, 0, {}
+    cross = {}
     for fkey, r, err in results:
         if err:
             crashes[fkey] = err
@@ -100,6 +101,8 @@ def main(argv=None):
         solver_time += r['solver_time']
         queries += r['queries']
         houdini.update(r['houdini'])
+        for k, v in (r.get('cross_check') or {}).items():
+            cross[k] = round(cross.get(k, 0) + v, 2)
     if crashes:
         for k, v in crashes.items():
             print(f'ENGINE CRASH in {k}:\n{v}')
@@ -155,7 +158,7 @@ def main(argv=None):
         violations.append((o, rp))
     # bounded stand-in for what the verifier could not decide (never counted as proved)
     bounded = []
-    if (open_ or unsupported or missing or P.get('always_standin')) and P.get('standin'):
+    if (open_ or unsupported or missing or P.get('always_standin') or a.tier != 'quick') and P.get('standin'):
         bounded = run_standin(P, prop, a.repo, a.tier, seed)
         for b in bounded:
             if b.get('violation'):
@@ -198,7 +201,7 @@ def main(argv=None):
         json.dump(sorted(o['name'] for o in discharged), open(bfile, 'w'), indent=1)
     if not a.no_evidence and a.repo == '/repo':
         write_evidence(prop, a.tier, seed, level, P, functions, obligations, unsupported, bounded, known_hits, violations,
-                       trusted_uses, solver_time, queries, wall, lemmas, houdini, missing)
+                       trusted_uses, solver_time, queries, wall, lemmas, houdini, missing, cross)
     print(f"{prop}: {len(discharged)}/{len(obligations)} obligations discharged, {len(refuted)} refuted, {len(open_)} open, "
           f"{len(unsupported)} functions outside the fragment; solver {solver_time:.1f}s, wall {wall:.1f}s, level={level}")
     return 1 if violations else 0
@@ -254,7 +257,7 @@ def run_standin(P, prop, repo, tier, seed):
 
 # ---------------------------------------------------------------------- evidence
 def write_evidence(prop, tier, seed, level, P, functions, obligations, unsupported, bounded, known_hits, violations,
-                   trusted_uses, solver_time, queries, wall, lemmas, houdini, missing):
+                   trusted_uses, solver_time, queries, wall, lemmas, houdini, missing, cross=None):
     obs = sorted(obligations.values(), key=lambda o: o['name'])
     n_dis = sum(1 for o in obs if o['status'] == 'discharged')
     R = None
@@ -316,6 +319,9 @@ def write_evidence(prop, tier, seed, level, P, functions, obligations, unsupport
         back_ends=sorted({o['backend'] for o in obs}),
         exhaustive=False,
     )
+    if cross:
+        cov['cross_check'] = dict(cross, what='thorough tier: every unbounded query z3 answered unsat was also given to cvc5 '
+                                               '(agree = cvc5 unsat too; cvc5_undecided = unknown/timeout within 10 s; cvc5_sat = disagreement, obligation left undecided)')
     if explanation:
         cov['explanation'] = explanation
     ev = dict(property_id=prop, tier=tier, seed=seed, level=level, coverage=cov,
